@@ -4410,6 +4410,15 @@ fn check_entity_reference(
                 name
             )));
         }
+        // like elements (parser::MAX_NESTING_DEPTH): every level of nesting is a level of recursion here and
+        // wherever the replacement text is built, so a long chain would overflow the stack
+        if open.len() >= xml_parser::MAX_NESTING_DEPTH {
+            return Err(error::Error::InvalidData(format!(
+                "entity references nested deeper than {} at '{}'",
+                xml_parser::MAX_NESTING_DEPTH,
+                name
+            )));
+        }
         if entity.notation_name().is_some() {
             return Err(error::Error::InvalidData(format!(
                 "reference to the unparsed entity '{}'",
